@@ -227,6 +227,10 @@ type builder struct {
 	oddLen  bool // some added value had len%4 != 0
 	sealed  int  // ops applied after an integrity/fingerprint setter
 	hasSeal bool
+	// trailing: the message was decoded from a datagram with bytes after the declared length and no
+	// attribute has been appended since. Those bytes are tolerated by the decoder and stay in Raw
+	// until the next operation that appends an attribute or re-encodes, which cuts Raw at the new end.
+	trailing bool
 }
 
 // applyModel updates the model for a setter-type op that returned nil.
@@ -247,6 +251,7 @@ func (b *builder) noteAdded(o bop, addType uint16, addLen int) error {
 		return fmt.Errorf("after %s: appended attribute has length %d, want %d", o.Kind, last.Len, addLen)
 	}
 	b.mod.Attrs = append(b.mod.Attrs, mAttr{Type: addType, Value: append([]byte(nil), last.Value...)})
+	b.trailing = false
 	b.lenOps++
 	if last.Len%4 != 0 {
 		b.oddLen = true
@@ -271,6 +276,7 @@ func (b *builder) apply(o bop) error {
 		v := unHex(o.Val)
 		m.Add(stun.AttrType(o.Type), v)
 		b.mod.Attrs = append(b.mod.Attrs, mAttr{Type: o.Type, Value: v})
+		b.trailing = false
 		b.lenOps++
 		if len(v)%4 != 0 {
 			b.oddLen = true
@@ -287,6 +293,7 @@ func (b *builder) apply(o bop) error {
 		m.WriteHeader()
 	case "encode":
 		m.Encode()
+		b.trailing = false
 	case "writelength":
 		m.WriteLength()
 	case "writetype":
@@ -314,6 +321,7 @@ func (b *builder) apply(o bop) error {
 		// model: Build resets the attributes, keeps type and id, then applies
 		// the setters in order; integrity after fingerprint stops it.
 		b.mod.Attrs = nil
+		b.trailing = false
 		stopAt := -1
 		for i, so := range subs {
 			if (so.Kind == "mi" || so.Kind == "mishort" || so.Kind == "milong") && fpBefore(subs[:i]) {
@@ -446,7 +454,7 @@ func startBuilder(o bop) (*builder, error) {
 	case "start-encode":
 		b.m = new(stun.Message)
 		b.m.Encode()
-	case "start-decode", "start-decode-dirty":
+	case "start-decode", "start-decode-dirty", "start-decode-trailing":
 		wire := unHex(o.Val)
 		b.m = new(stun.Message)
 		if err := stun.Decode(wire, b.m); err != nil {
@@ -459,6 +467,7 @@ func startBuilder(o bop) (*builder, error) {
 		if o.Kind == "start-decode-dirty" {
 			b.m.Encode()
 		}
+		b.trailing = o.Kind == "start-decode-trailing"
 		b.mod.Method, b.mod.Class, b.mod.TID = r.Method, r.Class, r.TID
 		for _, a := range r.Attrs {
 			b.mod.Attrs = append(b.mod.Attrs, mAttr{Type: a.Type, Value: append([]byte(nil), a.Value...)})
@@ -480,7 +489,7 @@ func (b *builder) invariant() error {
 	if !ok {
 		return fmt.Errorf("raw bytes (%d) are not a well-formed RFC 5389 message: %s", len(m.Raw), evidHex(m.Raw))
 	}
-	if len(m.Raw) != 20+r.Length {
+	if len(m.Raw) != 20+r.Length && !b.trailing {
 		return fmt.Errorf("header length %d but %d bytes follow the header", r.Length, len(m.Raw)-20)
 	}
 	if int(m.Length) != r.Length || r.Length%4 != 0 {
@@ -527,7 +536,7 @@ func (b *builder) invariant() error {
 	if string(fresh.Raw) != string(canon) {
 		return fmt.Errorf("decode-then-encode does not reproduce the canonical bytes")
 	}
-	if string(m.Raw) != string(canon) {
+	if raw := m.Raw; string(raw[:min(len(raw), 20+r.Length)]) != string(canon) || (len(raw) != len(canon) && !b.trailing) {
 		return fmt.Errorf("raw bytes differ from the canonical encoding of the model")
 	}
 
@@ -700,7 +709,14 @@ func genStep(rt *rapid.T) bop {
 }
 
 func genStart(rt *rapid.T) bop {
-	switch rapid.IntRange(0, 6).Draw(rt, "startClass") {
+	switch rapid.IntRange(0, 7).Draw(rt, "startClass") {
+	case 7:
+		// a canonical message followed by bytes that do not belong to it (tolerated by the decoder)
+		w := gen.WireMsg(rt, 6, 800, true)
+		dropAlias(&w)
+		w.Trailing = rapid.SliceOfN(rapid.Byte(), 1, 64).Draw(rt, "trailing")
+
+		return bop{Kind: "start-decode-trailing", Val: toHex(w.Bytes())}
 	case 0, 1:
 		return bop{Kind: "start-build", Sub: genSetterList(rt, 5, true)}
 	case 2:
